@@ -186,4 +186,61 @@ theorem implParse_objInv (g : Cfg) (p : P) (cache data : Bytes) (cur : Option Bu
   · exact runOk_refl g cur [] p _ hI
   · exact loop_objInv g _ _ _ _ _ _ _ hI
 
+theorem implParse_objInv_acc (g : Cfg) (p : P) (cache data : Bytes) (acc : List Ev) (cur : Option Building)
+    (hI : ObjInv g p cur) : RunOk g cur acc (implParse (machine g) p cache data acc) := by
+  unfold implParse
+  split
+  · exact runOk_refl g cur acc p _ hI
+  · exact loop_objInv g _ _ _ _ _ _ _ hI
+
+/-- the whole chain of `Parse` calls the driver runs: the processor can consume everything it emits -/
+theorem feedAllL_objInv (g : Cfg) (limit : Nat) :
+    ∀ (segs : List Bytes) (p : P) (cache : Bytes) (acc : List Ev) (cur : Option Building), ObjInv g p cur →
+      RunOk g cur acc (feedAllL (machine g) limit p cache segs acc) := by
+  intro segs
+  induction segs with
+  | nil => intro p cache acc cur hI; exact runOk_refl g cur acc p cache hI
+  | cons seg segs ih =>
+    intro p cache acc cur hI
+    simp only [feedAllL, parseLC_eq]
+    by_cases ht : cache ≠ [] ∧ limit > 0 ∧ cache.length + seg.length > limit
+    · have hp : parseL (machine g) limit p cache seg acc = ⟨acc, .inr 11⟩ := by
+        unfold parseL; rw [if_pos ht]
+      rw [hp]
+      exact ⟨[], by simp, cur, [], by simp [procRun], by intro p' c' h; cases h⟩
+    · have hp : parseL (machine g) limit p cache seg acc = implParse (machine g) p cache seg acc := by
+        unfold parseL; rw [if_neg ht]
+      rw [hp]
+      have h1 := implParse_objInv_acc g p cache seg acc cur hI
+      cases hr : implParse (machine g) p cache seg acc with
+      | mk a fin =>
+        rw [hr] at h1
+        cases fin with
+        | inl pr =>
+          obtain ⟨p1, c1⟩ := pr
+          obtain ⟨evs1, e1, cur1, o1, hp1, hI1⟩ := h1
+          simp only at e1
+          subst e1
+          exact runOk_step g cur cur1 o1 acc evs1 _ hp1 (ih p1 c1 (acc ++ evs1) cur1 (hI1 p1 c1 rfl))
+        | inr e => exact h1
+
+/-- delivering call by call is delivering the concatenated events (C06 at message level rests on this) -/
+theorem procCalls_flatten (c : Bool) (evss : List (List Ev)) : ∀ (cur : Option Building),
+    (procCalls c cur evss).map (fun r => (r.1, r.2.flatten)) = procRun c cur evss.flatten [] := by
+  induction evss with
+  | nil => intro cur; simp [procCalls, procRun]
+  | cons evs rest ih =>
+    intro cur
+    simp only [procCalls, List.flatten_cons]
+    rw [procRun_append]
+    cases h1 : procRun c cur evs [] with
+    | none => rfl
+    | some r =>
+      obtain ⟨cur1, o1⟩ := r
+      simp only
+      rw [procRun_acc, ← ih cur1]
+      cases procCalls c cur1 rest with
+      | none => rfl
+      | some q => simp
+
 end Http
